@@ -55,7 +55,7 @@ func (m *Model) CompareShard(w *World, shard int) []Mismatch {
 		if ma == nil {
 			ma = newMAccount()
 		}
-		isSys := bytes.Equal([]byte(addr), vmcommon.SystemAccountAddress)
+		isSys := bytes.Equal([]byte(addr), refSystemAccount)
 		seenEntries, seenRoles, seenCounters, seenKV, seenPause := map[string]bool{}, map[string]bool{}, map[string]bool{}, map[string]bool{}, map[string]bool{}
 		for _, k := range sortedKeys(a.Storage) {
 			val := a.Storage[k]
@@ -112,7 +112,7 @@ func (m *Model) CompareShard(w *World, shard int) []Mismatch {
 				if n := new(big.Int).SetBytes(val); !n.IsUint64() || n.Uint64() != ma.Counter[tok] {
 					out = append(out, Mismatch{"counter", []byte(addr), k, sprintf("%s counter for %q is %v, expected %d", shortAddr([]byte(addr)), tok, n, ma.Counter[tok])})
 				}
-			case strings.HasPrefix(k, vmcommon.ElrondProtectedKeyPrefix):
+			case strings.HasPrefix(k, refProtectedPrefix):
 				out = append(out, Mismatch{"unknown-key", []byte(addr), k, sprintf("protected key %q has none of the three protocol layouts", k)})
 			default:
 				seenKV[k] = true
@@ -179,10 +179,10 @@ func (m *Model) WellFormed(w *World, shard int) []Clause {
 	sort.Strings(addrs)
 	for _, addr := range addrs {
 		a := s.Accounts[addr]
-		isSys := bytes.Equal([]byte(addr), vmcommon.SystemAccountAddress)
+		isSys := bytes.Equal([]byte(addr), refSystemAccount)
 		for _, k := range sortedKeys(a.Storage) {
 			val := a.Storage[k]
-			if !strings.HasPrefix(k, vmcommon.ElrondProtectedKeyPrefix) {
+			if !strings.HasPrefix(k, refProtectedPrefix) {
 				continue
 			}
 			switch {
@@ -265,7 +265,7 @@ func (w *World) TotalAt(suffix string) *big.Int {
 	total := new(big.Int)
 	for _, s := range w.Shards {
 		for addr, a := range s.Accounts {
-			if bytes.Equal([]byte(addr), vmcommon.SystemAccountAddress) {
+			if bytes.Equal([]byte(addr), refSystemAccount) {
 				continue
 			}
 			if v, ok := a.Storage[pfxESDT+suffix]; ok {
@@ -283,7 +283,7 @@ func (w *World) AllSuffixes() []string {
 	set := map[string]bool{}
 	for _, s := range w.Shards {
 		for addr, a := range s.Accounts {
-			if bytes.Equal([]byte(addr), vmcommon.SystemAccountAddress) {
+			if bytes.Equal([]byte(addr), refSystemAccount) {
 				continue
 			}
 			for k := range a.Storage {
